@@ -21,8 +21,10 @@ package types
 
 //@ interface WritableFile.Sync
 //@   assigns self.dirty, self.dirLinked
-//@   ensures result == nil ==> !self.dirty && self.dirLinked
-//@   ensures result != nil ==> self.dirty == old(self.dirty) && self.dirLinked == old(self.dirLinked)
+//@   ensures result == nil ==> !self.dirty
+//@   ensures result == nil ==> self.dirLinked
+//@   ensures result != nil ==> self.dirty == old(self.dirty)
+//@   ensures result != nil ==> self.dirLinked == old(self.dirLinked)
 
 //@ -- io.ReaderAt over the ghost file contents self.data[0:self.size): a call
 //@ -- either fails with an I/O error, or returns exactly the available bytes
@@ -61,7 +63,9 @@ package types
 // ---------------------------------------------------------------------------
 
 //@ interface VFS.Create
-//@   ensures result1 == nil ==> result0 != nil && !result0.closed && !result0.dirty && !result0.dirLinked
+//@   ensures result1 == nil ==> result0 != nil
+//@   ensures result1 == nil ==> !result0.dirLinked
+//@   ensures result1 == nil ==> !result0.closed && !result0.dirty
 //@   ensures result1 == nil ==> result0.size <= 0xffffffff
 //@   ghostset g_open = ite(result1 == nil, g_open + 1, g_open)
 
